@@ -55,7 +55,7 @@ impl Prop for C10 {
         vec!["the bound is the one stated in the property; it was measured tight (max ratio 0.999) and never exceeded on the pinned tree".into()]
     }
     fn random_cases(tier: Tier) -> u64 {
-        tier.pick(3_000, 40_000)
+        tier.pick(3_000, 150_000)
     }
     fn strategy(tier: Tier) -> BoxedStrategy<Case> {
         let max = tier.pick(12_000u32, 60_000);
